@@ -1,7 +1,7 @@
 /-
   Handlers/HC15.lean — driver requests of property C15.
 
-    c15 <rt> <graph locked nested qmodel asyncio nestedModelCtx> <PM> <rho pairs> <held> <delta entries> <events>
+    c15 <rt> <graph locked nested qmodel asyncio> <PM> <rho pairs> <held> <delta entries> <events>
         → `R <PM> O <observations> F <PM>`
       rt = 1: the machine is first sent through `Pickle.roundtrip` with identity map `rho`
       (R = the tables right after unpickling), then the events are run on it (O, F = final tables);
@@ -45,8 +45,7 @@ def c15Ev : P Ev := do
 def c15Case : P String := do
   let rt ← bool
   let graph ← bool; let locked ← bool; let nested ← bool; let qmodel ← bool; let asyncio ← bool
-  let nestedModelCtx ← bool
-  let k : Kind := { graph, locked, nested, qmodel, asyncio, nestedModelCtx }
+  let k : Kind := { graph, locked, nested, qmodel, asyncio }
   let M ← c15PM
   let rho ← c15Pairs
   let held ← nats
